@@ -1,32 +1,27 @@
 """C12 — the PDU factory returns the right PDU kind, equal to what was packed.
 
 Cross-cutting: valid PDUs of every kind come from the generators / builders / field views / independent
-encoders of the owning properties (props/c06_fixed.py, props/c07.py; props/c06_var.py in stage 2), organised
-as one table of kinds (`KINDS`). Adding a kind = one entry in that table.
-
-STAGE 1: EOF, Finished and Metadata have no Lean model yet (`lean=False`): they are covered on the
-implementation side only (real PduFactory / PduHolder, self checks), through the op `fac_impl_only`.
+encoders of the owning properties (props/c06_fixed.py, props/c06_var.py, props/c07.py), organised as one table
+of kinds (`KINDS`). Adding a kind = one entry in that table.
 """
 import random
 import warnings
 from dataclasses import dataclass
 from typing import Any, Callable, Dict, Iterator, List, Optional
 
-from core import Case, InfraError, Prop, SelfCheckFailure, exc_category, DOCUMENTED
+from core import Case, Prop, SelfCheckFailure, exc_category, DOCUMENTED
 from gen import hx, unhx, rbytes
 
 import props.c06_fixed as c6f
+import props.c06_var as c6v
 import props.c07 as c07
 
-from spacepackets.cfdp.defs import PduType, ConditionCode, DeliveryCode, FileStatus, ChecksumType
+from spacepackets.cfdp.defs import PduType
 from spacepackets.cfdp.pdu import (
     AckPdu, EofPdu, FileDataPdu, FinishedPdu, KeepAlivePdu, MetadataPdu, NakPdu, PromptPdu, DirectiveType,
-    FinishedParams, MetadataParams,
 )
 from spacepackets.cfdp.pdu.helper import PduFactory, PduHolder
 from spacepackets.cfdp.pdu.header import AbstractPduBase
-from spacepackets.cfdp.tlv import EntityIdTlv
-from spacepackets.crc import CRC16_CCITT_FUNC
 
 WIDTHS = [1, 2, 4, 8]
 DIRECTIVE_MEMBERS = [4, 5, 6, 7, 8, 9, 12, 10]       # model: Factory.directiveTypes
@@ -43,13 +38,16 @@ class Kind:
     cls: type
     accessor: str                 # name of the PduHolder accessor
     code: Optional[int]           # DirectiveType member (None: File Data)
-    lean: bool                    # is there a Lean model of this kind's decoder?
     build: Callable[[Dict[str, Any]], Any]                       # constructor arguments -> object (owning builder)
     fields: Optional[Callable[[Any], Dict[str, Any]]]            # owning field view
     params: Callable[[random.Random, Dict[str, Any], int], Dict[str, Any]]   # configuration -> constructor arguments
     harvest: Callable[[random.Random, bool], Iterator[Dict[str, Any]]]        # the owning generator's valid arguments
     spec: Optional[Callable[[Dict[str, Any]], bytes]]            # independent encoder (octets without the implementation)
     refuses_trailing: bool = False
+    # what the decoder hands back is compared up to this normalisation of the field view (Metadata: [] = None)
+    norm: Callable[[Dict[str, Any]], Dict[str, Any]] = lambda f: f
+    # can the library's == compare this object? (EOF / Finished: fault-location entity ID of width 1, 2, 4, 8)
+    eq_ok: Callable[[Any], bool] = lambda obj: True
 
 
 def _harvest(gen, opname: str):
@@ -95,80 +93,80 @@ def _fd_harvest(rng, thorough):
         yield c07.rand_args(rng)
 
 
-# ---- stage 1 only: EOF / Finished / Metadata builders (replaced by those of props/c06_var.py in stage 2) ----
-def _s1_fault(rng, a):
-    if rng.random() < 0.5:
-        return None
-    w = rng.choice(WIDTHS)
-    return hx(rbytes(rng, w))
+def _hex_or_none(b: Optional[bytes]) -> Optional[str]:
+    return None if b is None else hx(b)
 
 
-def _s1_eof_params(rng, a, k):
+def _eof_params(rng, a, k):
     cond = c6f.COND_MEMBERS[k % len(c6f.COND_MEMBERS)]
-    return {**a, "cond": cond, "checksum": hx(rbytes(rng, 4)), "size": c6f.fss_val(rng, a["large"]),
-            "fault": None if cond == 0 else _s1_fault(rng, a)}
+    fault = None if k % 5 == 0 else c6v.rand_fault(rng, c6v.ID_WIDTHS[k % 4])
+    return {**a, "checksum": hx(c6v.rand_checksum(rng)), "size": c6f.fss_val(rng, a["large"]),
+            "fault": _hex_or_none(fault), "cond": cond}
 
 
-def _s1_eof(a):
-    return EofPdu(pdu_conf=c6f._conf(a), file_checksum=unhx(a["checksum"]), file_size=a["size"],
-                  fault_location=None if a["fault"] is None else EntityIdTlv(unhx(a["fault"])),
-                  condition_code=ConditionCode(a["cond"]))
-
-
-def _s1_fin_params(rng, a, k):
+def _fin_params(rng, a, k):
     cond = c6f.COND_MEMBERS[k % len(c6f.COND_MEMBERS)]
-    return {**a, "cond": cond, "dc": k % 2, "fs": (k // 2) % 4,
-            "fault": None if cond in (0, 11) else _s1_fault(rng, a)}
+    fault = None if (cond in c6v.NO_FAULT_CONDS or k % 3 == 0) else c6v.rand_fault(rng, c6v.ID_WIDTHS[k % 4])
+    return {**a, "cond": cond, "delivery": k % 2, "status": (k // 2) % 4,
+            "responses": [c6v.rand_resp(rng) for _ in range([0, 1, 0, 2, 3][k % 5])], "fault": _hex_or_none(fault)}
 
 
-def _s1_fin(a):
-    return FinishedPdu(pdu_conf=c6f._conf(a), params=FinishedParams(
-        condition_code=ConditionCode(a["cond"]), delivery_code=DeliveryCode(a["dc"]), file_status=FileStatus(a["fs"]),
-        file_store_responses=[], fault_location=None if a["fault"] is None else EntityIdTlv(unhx(a["fault"]))))
+def _md_params(rng, a, k):
+    opts = [None, [], c6v.rand_options(rng, 1), None, c6v.rand_options(rng, 3)][k % 5]
+    return {**a, "closure": bool(k % 2), "ctype": c6v.CHECKSUM_TYPES[k % len(c6v.CHECKSUM_TYPES)],
+            "size": c6f.fss_val(rng, a["large"]),
+            "src": None if k % 7 == 0 else hx(c6v.rand_name(rng)), "dst": None if k % 11 == 0 else hx(c6v.rand_name(rng)),
+            "options": opts}
 
 
-_S1_NAMES = [None, "", "a", "/tmp/x.bin", "ä/ö.txt", "n" * 255]
+def _fault_eq_ok(obj) -> bool:
+    fl = obj.fault_location
+    return fl is None or len(fl.value) in c6v.ID_WIDTHS
 
 
-def _s1_md_params(rng, a, k):
-    return {**a, "closure": bool(k % 2), "ctype": [0, 1, 2, 3, 15][k % 5], "size": c6f.fss_val(rng, a["large"]),
-            "src": _S1_NAMES[k % len(_S1_NAMES)], "dst": _S1_NAMES[(k // 2) % len(_S1_NAMES)]}
+def _fin_harvest(rng, thorough):
+    # a fault location together with a condition code that cannot have one is not a valid parameter set for the
+    # round trip (DESIGN section 8: the field is not packed)
+    for a in _harvest(c6v.PART.fin_cases, "fin_pack")(rng, thorough):
+        if a["fault"] is None or a["cond"] not in c6v.NO_FAULT_CONDS:
+            yield a
 
 
-def _s1_md(a):
-    return MetadataPdu(pdu_conf=c6f._conf(a), params=MetadataParams(
-        closure_requested=a["closure"], checksum_type=ChecksumType(a["ctype"]), file_size=a["size"],
-        source_file_name=a["src"], dest_file_name=a["dst"]))
+def _spec_eof(a):
+    return c6v.spec_eof(a, a["cond"], unhx(a["checksum"]), a["size"], None if a["fault"] is None else unhx(a["fault"]))
 
 
-def _s1_harvest(params):
-    def h(rng, thorough):
-        for k in range(2000 if thorough else 200):
-            yield params(rng, c6f.rand_conf(rng), k)
-    return h
+def _spec_fin(a):
+    return c6v.spec_fin(a, a["cond"], a["delivery"], a["status"], a["responses"],
+                        None if a["fault"] is None else unhx(a["fault"]))
+
+
+def _spec_md(a):
+    return c6v.spec_md(a, a["closure"], a["ctype"], a["size"], b"" if a["src"] is None else unhx(a["src"]),
+                       b"" if a["dst"] is None else unhx(a["dst"]), a["options"])
 
 
 KINDS: List[Kind] = [
-    Kind(0, "file_data", FileDataPdu, "to_file_data_pdu", None, True, c07._pdu, c07._pdu_fields, _fd_params,
+    Kind(0, "file_data", FileDataPdu, "to_file_data_pdu", None, c07._pdu, c07._pdu_fields, _fd_params,
          _fd_harvest, c07.spec_fd),
-    Kind(1, "eof", EofPdu, "to_eof_pdu", 4, False, _s1_eof, None, _s1_eof_params, _s1_harvest(_s1_eof_params), None),
-    Kind(2, "finished", FinishedPdu, "to_finished_pdu", 5, False, _s1_fin, None, _s1_fin_params,
-         _s1_harvest(_s1_fin_params), None),
-    Kind(3, "ack", AckPdu, "to_ack_pdu", 6, True, c6f._ack, c6f._ack_fields, _ack_params,
+    Kind(1, "eof", EofPdu, "to_eof_pdu", 4, c6v._eof, c6v._eof_fields, _eof_params,
+         _harvest(c6v.PART.eof_cases, "eof_pack"), _spec_eof, eq_ok=_fault_eq_ok),
+    Kind(2, "finished", FinishedPdu, "to_finished_pdu", 5, c6v._fin, c6v._fin_fields, _fin_params,
+         _fin_harvest, _spec_fin, eq_ok=_fault_eq_ok),
+    Kind(3, "ack", AckPdu, "to_ack_pdu", 6, c6f._ack, c6f._ack_fields, _ack_params,
          _harvest(c6f.PART.ack_cases, "ack_pack"), lambda a: c6f.spec_ack(a, a["acked"], a["cond"], a["status"])),
-    Kind(4, "metadata", MetadataPdu, "to_metadata_pdu", 7, False, _s1_md, None, _s1_md_params,
-         _s1_harvest(_s1_md_params), None),
-    Kind(5, "nak", NakPdu, "to_nak_pdu", 8, True, c6f._nak, c6f._nak_fields, _nak_params,
+    Kind(4, "metadata", MetadataPdu, "to_metadata_pdu", 7, c6v._md, c6v._md_fields, _md_params,
+         _harvest(c6v.PART.md_cases, "md_pack"), _spec_md, norm=c6v._md_norm),
+    Kind(5, "nak", NakPdu, "to_nak_pdu", 8, c6f._nak, c6f._nak_fields, _nak_params,
          _harvest(c6f.PART.nak_cases, "nak_pack"),
          lambda a: c6f.spec_nak(a, a["start"], a["end"], a["segs"] or []), refuses_trailing=True),
-    Kind(6, "prompt", PromptPdu, "to_prompt_pdu", 9, True, c6f._prompt, c6f._prompt_fields, _prompt_params,
+    Kind(6, "prompt", PromptPdu, "to_prompt_pdu", 9, c6f._prompt, c6f._prompt_fields, _prompt_params,
          _harvest(c6f.PART.prompt_cases, "prompt_pack"), lambda a: c6f.spec_prompt(a, a["resp"])),
-    Kind(7, "keep_alive", KeepAlivePdu, "to_keep_alive_pdu", 12, True, c6f._ka, c6f._ka_fields, _ka_params,
+    Kind(7, "keep_alive", KeepAlivePdu, "to_keep_alive_pdu", 12, c6f._ka, c6f._ka_fields, _ka_params,
          _harvest(c6f.PART.ka_cases, "ka_pack"), lambda a: c6f.spec_ka(a, a["progress"])),
 ]
 KIND_OF_CLASS = {k.cls: k for k in KINDS}
 KIND_OF_CODE = {k.code: k for k in KINDS if k.code is not None}
-UNMODELLED_CODES = sorted(k.code for k in KINDS if not k.lean and k.code is not None)
 
 
 # --------------------------------------------------------------------------------------------
@@ -187,7 +185,7 @@ def _payload(obj) -> Dict[str, Any]:
     k = _kind_of(obj)
     if k is None:
         return {"kind": None, "pdu": None}
-    f = k.fields(obj) if k.fields is not None else {}
+    f = k.fields(obj)
     f["raw"] = c6f._repack(obj)
     return {"kind": k.idx, "pdu": f}
 
@@ -310,11 +308,11 @@ def _roundtrip(k: Kind, a, sfx: bytes):
     dec = _from_raw_sfx(raw, sfx)
     if type(dec) is not k.cls:
         raise SelfCheckFailure(f"from_raw(pack(<{k.name}>)) returned {type(dec).__name__}")
-    if not (dec == obj) or not (obj == dec):
+    if k.eq_ok(obj) and (not (dec == obj) or not (obj == dec)):
         raise SelfCheckFailure(f"from_raw(pack(x)) != x under == ({k.name})")
     if bytes(dec.pack()) != raw:
         raise SelfCheckFailure(f"re-packing what the factory returned does not reproduce the octets ({k.name})")
-    if k.fields is not None and k.fields(dec) != k.fields(obj):
+    if k.norm(k.fields(dec)) != k.norm(k.fields(obj)):
         raise SelfCheckFailure(f"from_raw(pack(x)) has different header / parameter values ({k.name})")
     _check_inspectors_of(k, raw + sfx)
     return obj, raw, dec
@@ -355,100 +353,9 @@ def op_fac_holder(a):
     return v
 
 
-_REFUSED = object()
-
-
-def _documented_only(ins: Dict[str, Any], what: str):
-    for name, r in ins.items():
-        if "err" in r and r["err"] != "documented":
-            raise SelfCheckFailure(f"{name} raised an undocumented {r['err']} error on {what}")
-
-
-def _in_domain(a) -> bool:
-    """is this op line one the generator can produce? (the framework's shrinker lowers values blindly; for an op
-    whose model side is constant nothing else would stop it from leaving the statement's domain)"""
-    try:
-        k = KINDS[a["kind"]]
-        if k.lean:
-            return False
-        if a["src_w"] not in WIDTHS or a["dst_w"] != a["src_w"] or a["seq_w"] not in WIDTHS:
-            return False
-        for f, w in (("src_v", "src_w"), ("dst_v", "dst_w"), ("seq_v", "seq_w")):
-            if not 0 <= a[f] < 1 << (8 * a[w]):
-                return False
-        if any(a[f] not in (0, 1) for f in ("mode", "large", "crc", "dir", "segctrl")):
-            return False
-        top = (1 << 64) if a["large"] else (1 << 32)
-        if not 0 <= a.get("size", 0) < top:
-            return False
-        if "fault" in a and a["fault"] is not None and len(a["fault"]) // 2 not in WIDTHS:
-            return False
-        if "cond" in a and a["cond"] not in c6f.COND_MEMBERS:
-            return False
-        if k.name == "eof":
-            return len(a["checksum"]) == 8 and (a["cond"] != 0 or a["fault"] is None)
-        if k.name == "finished":
-            return a["dc"] in (0, 1) and a["fs"] in (0, 1, 2, 3) and (a["cond"] not in (0, 11) or a["fault"] is None)
-        if k.name == "metadata":
-            return a["ctype"] in (0, 1, 2, 3, 15) and isinstance(a["closure"], bool)
-        return False
-    except (KeyError, TypeError, IndexError):
-        return False
-
-
-def op_fac_impl_only(a):
-    """kinds without a Lean model (stage 1): the statement's clauses on the real code alone"""
-    if not _in_domain(a):
-        raise InfraError(f"fac_impl_only outside the generator's domain: {str(a)[:200]}")
-    k = KINDS[a["kind"]]
-    sfx = unhx(a["suffix"])
-    obj, raw, dec = _roundtrip(k, a, sfx)
-    for via in (0, 1, 2):
-        v = _holder_view(_make_holder(dec, via), dec)
-        _check_holder_table(v, k)
-    h = PduFactory.from_raw_to_holder(raw)
-    _check_holder_table(_holder_view(h, h.pdu), k)
-    # truncations and directive-octet substitutions: documented failures only, inspectors consistent
-    hl = 4 + 2 * a["src_w"] + a["seq_w"]
-    if a.get("deep"):
-        for cut in range(len(raw)):
-            _documented_only(_inspect(raw[:cut]), f"a {k.name} PDU truncated to {cut} octets")
-            try:
-                PduFactory.from_raw(raw[:cut])
-            except Exception as e:  # noqa
-                if exc_category(e) not in DOCUMENTED:
-                    raise
-            else:
-                raise SelfCheckFailure(f"from_raw accepted a {k.name} PDU truncated to {cut} of {len(raw)} octets")
-        for v in range(256):
-            b = bytearray(raw)
-            b[hl] = v
-            if a["crc"]:
-                b = bytearray(c6f.with_crc(bytes(b[:-2])))
-            ins = _inspect(bytes(b))
-            want = {"ok": v} if v in DIRECTIVE_MEMBERS else {"err": "documented"}
-            if ins["directive_type"] != want:
-                raise SelfCheckFailure(f"pdu_directive_type on directive octet {v}: {ins['directive_type']}")
-            try:
-                r = PduFactory.from_raw(bytes(b))
-            except Exception as e:  # noqa
-                if exc_category(e) not in DOCUMENTED:
-                    raise
-                r = _REFUSED
-            if v not in DIRECTIVE_MEMBERS and r is not _REFUSED:
-                raise SelfCheckFailure(f"from_raw accepted the unknown directive code {v}")
-            if v == 10 and r is not None:
-                raise SelfCheckFailure("from_raw returned an object for DirectiveType.NONE")
-            if v == k.code and type(r) is not k.cls:
-                raise SelfCheckFailure("from_raw with the original directive octet restored")
-            if r is not _REFUSED and r is not None and v in KIND_OF_CODE and type(r) is not KIND_OF_CODE[v].cls:
-                raise SelfCheckFailure(f"from_raw returned {type(r).__name__} for directive code {v}")
-    return {"checked": True}
-
-
 OPS = {
     "fac_roundtrip": op_fac_roundtrip, "fac_from_raw": op_fac_from_raw, "fac_inspect": op_fac_inspect,
-    "fac_holder_raw": op_fac_holder_raw, "fac_holder": op_fac_holder, "fac_impl_only": op_fac_impl_only,
+    "fac_holder_raw": op_fac_holder_raw, "fac_holder": op_fac_holder,
 }
 
 
@@ -468,18 +375,7 @@ def refix_crc(b: bytes, crc: int) -> bytes:
     return c6f.with_crc(b[:-2]) if crc and len(b) > 2 else b
 
 
-def modelled_route(raw: bytes) -> bool:
-    """stage 1: can the Lean factory model follow this buffer? (not when the directive octet names a kind whose
-    decoder is not modelled yet)"""
-    if len(raw) < 4 or (raw[0] >> 4) & 1:
-        return True
-    hl = header_len(raw)
-    return not (hl < len(raw) and raw[hl] in UNMODELLED_CODES)
-
-
-def from_raw_case(raw: bytes, sfx: bytes, expect: str, tag: str, errclass: bool = False) -> Optional[Case]:
-    if not modelled_route(raw + sfx) or not modelled_route(raw):
-        return None
+def from_raw_case(raw: bytes, sfx: bytes, expect: str, tag: str, errclass: bool = False) -> Case:
     return Case({"op": "fac_from_raw", "raw": hx(raw), "suffix": hx(sfx)}, expect, errclass=errclass, tag=tag)
 
 
@@ -495,9 +391,10 @@ class C12(Prop):
     exhaustive_note = ("every kind x all 512 header configurations (16 width combinations x CRC x large file x mode x "
                        "caller's direction x segmentation control) through pack -> from_raw, the three inspectors and the "
                        "holder; all 9 (held kind or none) x 8 (requested kind) accessor pairs, for each way of filling the "
-                       "holder; all 256 values of the directive octet in each of the 16 width combinations through the "
-                       "inspectors and the factory; all 256 values of octet 0 and octet 3; every truncation of sampled "
-                       "PDUs of every kind and width combination")
+                       "holder; for every directive kind all 256 values of the directive octet in four width combinations "
+                       "(all 16 in the thorough tier) and every DirectiveType member, its neighbours and a random sample in "
+                       "each of the 16, through the inspectors and the factory; all 256 values of octet 0 and octet 3; every "
+                       "truncation of sampled PDUs of every kind and width combination")
     trusted_base = [
         "decoder models of the eight kinds: owned and tied by C05 / C06 / C07 (their own exhaustive sweeps); this check reuses their Ops field renderings",
         "arithmetic normal form of the inspectors (d0/16%2, 4+2*(d3/16%8+1)+(d3%8+1)) vs shifts/masks of the code: tied by the exhaustive sweeps of octet 0, octet 3 and the directive octet",
@@ -506,7 +403,7 @@ class C12(Prop):
     assumptions = [
         "held objects are objects the library builds itself (constructors, class decoders on octets of their own kind, the factory): for these the accessor table is claimed. An object obtained by calling the decoder of one class on the octets of another kind (PromptPdu.unpack on ACK octets keeps directive code 6) is modelled faithfully (Holder.castTo) but lies outside the statement and is not compared",
         "PduHolder.pdu_type / is_file_directive / pdu_directive_type on an EMPTY holder raise AssertionError (modelled, theorem C12_holder_views); the statement is silent about them and they are not compared",
-        "STAGE 1: EOF, Finished and Metadata are checked on the implementation side only (no Lean model merged yet)",
+        "Metadata: what the factory returns is compared with the packed object up to the decoder's normalisation (options as generic TLVs of the same type and value, an empty option list = no options), as in C06; == of EOF / Finished PDUs is only asked for fault-location entity IDs of width 1, 2, 4, 8 (the library's == raises ValueError for other widths)",
     ]
 
     def impl_ops(self):
@@ -562,10 +459,6 @@ class C12(Prop):
     # ----------------------------------------------------------------------------------------
     def pdu_cases(self, k: Kind, a: Dict[str, Any], rng: random.Random, tag: str, i: int, deep: bool) -> Iterator[Case]:
         """everything that is asked of one valid PDU (constructor arguments `a`) of kind k"""
-        if not k.lean:
-            yield Case({"op": "fac_impl_only", "kind": k.idx, **a, "suffix": hx(rng.choice([b"", b"", rbytes(rng, 3)])),
-                        "deep": deep}, "valid", tag=f"{k.name}:{tag}")
-            return
         raw = k.spec(a)
         sfx = suffixes(rng, raw)
         yield Case({"op": "fac_roundtrip", "kind": k.idx, **a, "suffix": hx(sfx[i % len(sfx)])}, "valid",
@@ -577,10 +470,10 @@ class C12(Prop):
         # the holder: filled by the kind's own decoder (three ways) or by the factory
         if len(raw) > 4096:
             pass        # what a holder does is independent of the size of the held PDU
-        elif i % 2:
-            yield Case({"op": "fac_holder", "kind": k.idx, "raw": hx(raw), "via": (i // 2) % 3}, "valid",
+        elif i % 4 == 1 or (self.thorough and i % 4 == 3):
+            yield Case({"op": "fac_holder", "kind": k.idx, "raw": hx(raw), "via": (i // 4) % 3}, "valid",
                        tag=f"{k.name}:{tag}")
-        else:
+        elif i % 4 == 2 or (self.thorough and i % 4 == 0):
             yield Case({"op": "fac_holder_raw", "raw": hx(raw)}, "valid", tag=f"{k.name}:{tag}")
         if not deep:
             return
@@ -594,7 +487,12 @@ class C12(Prop):
                 yield Case({"op": "fac_holder_raw", "raw": hx(raw[:cut])}, "invalid", tag=f"{k.name}:truncation")
         # all 256 values of the directive octet (CRC made to match)
         if k.code is not None:
-            for v in range(256):
+            # all 256 values in four width combinations per kind (all 16 in the thorough tier); in the others every
+            # member of DirectiveType, its neighbours, the extremes and a random sample
+            full = a["src_w"] == a["seq_w"] or self.thorough
+            values = range(256) if full else sorted(set(DIRECTIVE_MEMBERS) | {0, 1, 3, 11, 13, 14, 127, 128, 255}
+                                                    | {rng.randrange(256) for _ in range(24)})
+            for v in values:
                 b = bytearray(raw)
                 b[hl] = v
                 b = refix_crc(bytes(b), crc)
@@ -652,13 +550,21 @@ class C12(Prop):
                     # deep (truncations, octet sweeps) once per kind x width combination x CRC in the thorough tier,
                     # once per kind x width combination in the quick tier
                     first = wkey not in seen_widths[k.idx] and (thorough or a["crc"] == (a["src_w"] + a["seq_w"]) % 2)
-                    deep = first and (thorough or (a["large"] == 0 or k.name in ("nak", "keep_alive")))
+                    deep = first
                     if first:
                         seen_widths[k.idx].add(wkey)
                     if deep and k.name == "nak" and args.get("segs") and len(args["segs"]) > 3:
                         args["segs"] = args["segs"][:2]
                     if deep and k.name == "file_data" and len(args["data"]) > 64:
                         args["data"] = args["data"][:32]
+                    if deep and k.name == "finished":
+                        args["responses"] = args["responses"][:1]
+                    if deep and k.name == "metadata":
+                        for nm in ("src", "dst"):
+                            if args[nm] is not None and len(args[nm]) > 24:
+                                args[nm] = hx(b"n\xc3\xa4me-x")
+                        if args["options"]:
+                            args["options"] = args["options"][:1]
                     yield from self.pdu_cases(k, args, rng, "config-all", i, deep)
 
         # --- structured parameter values of the owning generators (boundary pools, every enum member, sizes) ---
@@ -709,7 +615,7 @@ class C12(Prop):
                 d = max(0, ln - hl + rng.choice([0, 0, 0, -1, 1, -2, 2, -8, 8]))
                 b[1], b[2] = (d >> 8) & 0xFF, d & 0xFF
             if ln > hl and rng.random() < 0.8:
-                b[hl] = rng.choice([6, 8, 9, 12, 10, 11, 6, 8, 9, 12, 0, 255])
+                b[hl] = rng.choice([4, 5, 6, 7, 8, 9, 12, 10, 11, 4, 5, 6, 7, 8, 9, 12, 0, 255])
             raw = bytes(b)
             if ln > 2 and (b[0] & 2) and rng.random() < 0.7:
                 raw = c6f.with_crc(raw[:-2])
